@@ -319,6 +319,27 @@ Proof.
     rewrite Z.mod_mod by (pose proof W_pos; lia). rewrite Z.mod_small by lia. lia.
 Qed.
 
+Lemma try_bp_inv : forall F b i id o u, try_bp F asz b i = Some (id, o, u) ->
+  resolve RFUEL F asz b = (Some id, Some o) /\ ubound (UFUEL_OF F) F i = Some u.
+Proof.
+  intros F b i id o u T. unfold try_bp in T.
+  remember (resolve RFUEL F asz b) as rb eqn:Erb. remember (ubound (UFUEL_OF F) F i) as ub eqn:Eub. clear Erb Eub.
+  destruct rb as [[id1|] [o1|]]; try discriminate. destruct ub as [u1|]; [|discriminate].
+  injection T as -> -> ->. split; reflexivity.
+Qed.
+
+Lemma bp_core : forall F c st b i id o u v, all_hold c st F ->
+  resolve RFUEL F asz b = (Some id, Some o) -> ubound (UFUEL_OF F) F i = Some u -> v = (oval c b + oval c i) mod W ->
+  0 <= o <= asz id /\ exists d, 0 <= d <= u /\ (A id + o + d < W -> v = A id + o + d).
+Proof.
+  intros F c st b i id o u v HF Rb Ui Hv.
+  pose proof (resolve_sound RFUEL F c st b HF) as R. rewrite Rb in R. unfold res_ok in R. destruct R as [R1 R2].
+  unfold base in R1.
+  pose proof (ubound_sound (UFUEL_OF F) F c st i u HF Ui) as Bi. pose proof (oval_range c i) as Ri.
+  split; [exact R2|]. exists (oval c i). split; [lia|]. intros Lt. rewrite Hv.
+  destruct (ex_A X A asz HE id) as [A1 _]. rewrite Z.mod_small by lia. lia.
+Qed.
+
 Lemma bounded_ptr_sound : forall F c st p id o u, all_hold c st F -> bounded_ptr F asz p = Some (id, o, u) ->
   0 <= o <= asz id /\ exists d, 0 <= d <= u /\ (A id + o + d < W -> oval c p = A id + o + d).
 Proof.
@@ -326,20 +347,12 @@ Proof.
   destruct (find_def F x) as [[op [|q1 [|q2 [|? ?]]]]|] eqn:D; try discriminate.
   destruct (op =s "add") eqn:E; [|discriminate]. apply seqb_eq in E. subst op.
   apply find_def_in in D. destruct (HF _ D) as [_ HD]. unfold out1 in HD. cbn [map] in HD.
-  rewrite (ex_add X A asz HE) in HD. cbn [hd] in HD. rewrite Z.mod_mod in HD by (pose proof W_pos; lia).
-  assert (G : forall b i, resolve RFUEL F asz b = (Some id, Some o) -> ubound UFUEL F i = Some u ->
-              oval c b + oval c i = oval c q2 + oval c q1 ->
-              0 <= o <= asz id /\ exists d, 0 <= d <= u /\ (A id + o + d < W -> oval c (OVar x) = A id + o + d)).
-  { intros b i Rb Ui Es. pose proof (resolve_sound RFUEL F c st b HF) as R. rewrite Rb in R. cbn in R. destruct R as [R1 R2].
-    pose proof (ubound_sound UFUEL F c st i u HF Ui) as Bi. pose proof (oval_range c i) as Ri.
-    split; [exact R2|]. exists (oval c i). split; [lia|]. intros Lt. rewrite <- HD.
-    destruct (ex_A X A asz HE id) as [A1 _]. rewrite Z.mod_small by lia. lia. }
-  assert (T : forall b i, try_bp F asz b i = Some (id, o, u) -> resolve RFUEL F asz b = (Some id, Some o) /\ ubound UFUEL F i = Some u).
-  { intros b i T. unfold try_bp in T. destruct (resolve RFUEL F asz b) as [[id1|] [o1|]]; try discriminate.
-    destruct (ubound UFUEL F i) as [u1|]; [|discriminate]. inversion T; subst. split; reflexivity. }
+  rewrite (ex_add X A asz HE) in HD. rewrite hd_mod_small in HD by (apply Z.mod_pos_bound; exact W_pos).
   destruct (try_bp F asz q1 q2) as [r1|] eqn:T1.
-  - inversion H; subst r1. destruct (T _ _ T1) as [Rb Ui]. apply (G q1 q2 Rb Ui). lia.
-  - destruct (T _ _ H) as [Rb Ui]. apply (G q2 q1 Rb Ui). lia.
+  - inversion H; subst r1. destruct (try_bp_inv _ _ _ _ _ _ T1) as [Rb Ui].
+    apply (bp_core F c st q1 q2 id o u _ HF Rb Ui). rewrite <- HD. f_equal. lia.
+  - destruct (try_bp_inv _ _ _ _ _ _ H) as [Rb Ui].
+    apply (bp_core F c st q2 q1 id o u _ HF Rb Ui). rewrite <- HD. reflexivity.
 Qed.
 
 Lemma sym_locU_sound : forall F c st args r s k, all_hold c st F ->
